@@ -72,4 +72,82 @@ theorem fallocate_keeps (H : Host) (file : Nat) (fd : HFd) (mode off len sz : Na
   all_goals apply keeps_upd_same H file sz _ hsz
   all_goals omega
 
+theorem putHnd_host (cfg : Cfg) (st : St) (h : Nat) (hd : Hnd) : (putHnd cfg st h hd).host = st.host := by
+  unfold putHnd; split <;> rfl
+
+theorem sealCheckWrite_ok (sz start len : Nat) (h : sealCheckWrite sz start len = .ok ()) : start + len ≤ sz := by
+  unfold sealCheckWrite at h
+  split at h
+  · cases h
+  · split at h
+    · cases h
+    · omega
+
+theorem sealCheckFallocate_ok (sz off len mode : Nat) (h : sealCheckFallocate sz off len mode = .ok ()) :
+    (fallocOp mode = 0 ∨ fallocOp mode = FL_PUNCH_HOLE ∨ fallocOp mode = FL_ZERO) ∧ off + len ≤ sz := by
+  unfold sealCheckFallocate at h
+  split at h
+  · cases h
+  · simp only at h
+    split at h
+    · split at h
+      · cases h
+      · rename_i h1 h2
+        simp only [Bool.or_eq_true, decide_eq_true_eq] at h1
+        refine ⟨?_, by omega⟩
+        rcases h1 with (h1 | h1) | h1
+        · exact Or.inl h1
+        · exact Or.inr (Or.inl h1)
+        · exact Or.inr (Or.inr h1)
+    · split at h <;> cases h
+
+theorem stepWrite_keeps (cfg : Cfg) (hs : cfg.sealed = true) (st : St) (file h : Nat) (fl : Flags) (len off : Nat) :
+    Keeps st.host (stepWrite cfg st file h fl len off).st.host := by
+  unfold stepWrite
+  have hg := getData_host cfg st file h
+  rcases hgd : getData cfg st file h with ⟨st1, r, c0⟩
+  rw [hgd] at hg
+  simp only at hg
+  cases r with
+  | error e => simp only; rw [hg]; exact Keeps.refl _
+  | ok hd0 =>
+    simp only [hs, if_true]
+    rcases hck : checkFdFlags hd0 fl with ⟨hd, c1⟩
+    simp only [putHnd_host, hg]
+    cases hsz : st.host.size file with
+    | none => simp only [putHnd_host]; rw [hg]; exact Keeps.refl _
+    | some sz =>
+      simp only
+      cases hsc : sealCheckWrite sz (if hd.fd.append = true then sz else off) len with
+      | error e => simp only [putHnd_host]; rw [hg]; exact Keeps.refl _
+      | ok u =>
+        simp only [putHnd_host, hg]
+        exact pwrite_keeps st.host file hd.fd len off sz hsz (sealCheckWrite_ok _ _ _ hsc)
+
+theorem stepFallocate_keeps (cfg : Cfg) (hs : cfg.sealed = true) (st : St) (file h mode off len : Nat) :
+    Keeps st.host (stepFallocate cfg st file h mode off len).st.host := by
+  unfold stepFallocate
+  have hg := getData_host cfg st file h
+  rcases hgd : getData cfg st file h with ⟨st1, r, c0⟩
+  rw [hgd] at hg
+  simp only at hg
+  cases r with
+  | error e => simp only; rw [hg]; exact Keeps.refl _
+  | ok hd =>
+    simp only [hs, if_true, hg]
+    cases hsz : st.host.size file with
+    | none => simp only; rw [hg]; exact Keeps.refl _
+    | some sz =>
+      simp only
+      cases hsc : sealCheckFallocate sz off len mode with
+      | error e => simp only; rw [hg]; exact Keeps.refl _
+      | ok u =>
+        simp only
+        have ⟨hop, hfit⟩ := sealCheckFallocate_ok _ _ _ _ hsc
+        have hk := fallocate_keeps st.host file hd.fd mode off len sz hsz hop hfit
+        cases hr : hostFallocate st.host file hd.fd mode off len with
+        | mk H r =>
+          rw [hr] at hk
+          cases r <;> exact hk
+
 end Fbr.Lemmas.PtSeal
